@@ -142,6 +142,8 @@ struct StructInfo {
 struct EnumInfo {
     id: usize,
     values: Vec<usize>,
+    /// the value of each enumerator
+    nums: Vec<i64>,
     /// qualification needed outside the namespace that declares the enum
     prefix: String,
 }
@@ -1118,10 +1120,25 @@ impl<'r> Gen<'r> {
             80..=85 if depth > 0 => {
                 self.feature("switch");
                 let sel = self.full_expr(Kind::Int, 1);
-                out.push_str(&format!("{}switch (({}) & 3)\n{}{{\n", pad, sel, pad));
-                let mut labels = vec![0, 1, 2, 3];
+                // one switch in four selects on an enumeration and labels its cases with enumerators
+                let over_enum = if !self.enums.is_empty() && self.rng.chance(1, 4) { Some(self.rng.below(self.enums.len())) } else { None };
+                let mut labels: Vec<String> = match over_enum {
+                    Some(e) => {
+                        self.feature("switch-over-enum");
+                        let info = self.enums[e].clone();
+                        let (lo, hi) = (*info.nums.iter().min().unwrap(), *info.nums.iter().max().unwrap());
+                        let span = hi - lo + 1;
+                        let ename = format!("{}{}", info.prefix, ph(info.id));
+                        out.push_str(&format!("{}switch (({})(((({}) & 0x7fff) % {}) + ({})))\n{}{{\n", pad, ename, sel, span, lo, pad));
+                        info.values.iter().map(|v| format!("{}::{}", ename, ph(*v))).collect()
+                    }
+                    None => {
+                        out.push_str(&format!("{}switch (({}) & 3)\n{}{{\n", pad, sel, pad));
+                        vec!["0".to_string(), "1".to_string(), "2".to_string(), "3".to_string()]
+                    }
+                };
                 self.rng.shuffle(&mut labels);
-                let ncases = 1 + self.rng.below(3);
+                let ncases = (1 + self.rng.below(3)).min(labels.len());
                 let saved = self.in_switch;
                 self.in_switch = true;
                 for (i, l) in labels.iter().take(ncases).enumerate() {
@@ -1274,19 +1291,27 @@ impl<'r> Gen<'r> {
         let mut values = Vec::new();
         let mut parts = Vec::new();
         let mut next = 0i64;
-        for _ in 0..n {
+        let mut nums = Vec::new();
+        // one enumeration in three starts below zero
+        let negative_start = self.rng.chance(1, 3);
+        for i in 0..n {
             let v = self.ident(IdKind::EnumValue);
             values.push(v);
-            if self.rng.chance(1, 2) {
+            if i == 0 && negative_start {
+                next = -(self.rng.range(1, 9) as i64);
+                parts.push(format!("    {} = {},", ph(v), next));
+                self.feature("enum-negative-values");
+            } else if self.rng.chance(1, 2) {
                 next += self.rng.range(0, 5);
                 parts.push(format!("    {} = {},", ph(v), next));
             } else {
                 parts.push(format!("    {},", ph(v)));
             }
+            nums.push(next);
             next += 1;
         }
         out.push_str(&format!("enum {}\n{{\n{}\n}};\n\n", ph(id), parts.join("\n")));
-        self.enums.push(EnumInfo { id, values, prefix: String::new() });
+        self.enums.push(EnumInfo { id, values, nums, prefix: String::new() });
         self.feature("enum");
     }
 
